@@ -378,7 +378,7 @@ func TestVerif_C05(t *testing.T) {
 
 	// ---- part 3: stratified by number of injected violation kinds, incl. 0 (valid space)
 	nb := pick(r, 64, 1024)
-	per := pick(r, 600, 3000)
+	per := pick(r, 3000, 12000)
 	r.Parallel(nb, func(l *Local) {
 		rng := l.Rng
 		for i := 0; i < per; i++ {
